@@ -1,8 +1,10 @@
 package sock
 
 import (
+	"bufio"
 	"bytes"
 	"fmt"
+	"io"
 	"net"
 	"os"
 	"sync"
@@ -29,8 +31,13 @@ type c12Event struct {
 }
 
 type c12SockPlan struct {
-	Kind   string     `json:"kind"` // router | tunnel
+	Kind   string     `json:"kind"` // router | tunnel | tunnel-duplex | tunnel-tcp
 	Events []c12Event `json:"events"`
+	// tunnel-tcp: the gateway writes relay #k in two segments cut at 1+Cuts[k%len]%(len-1), PauseUs apart; the last
+	// Hold relays are written as one burst
+	Cuts    []int `json:"cuts,omitempty"`
+	PauseUs int   `json:"pause_us,omitempty"`
+	Hold    int   `json:"hold,omitempty"`
 }
 
 func (e c12Event) event() knx.GroupEvent {
@@ -94,6 +101,125 @@ func c12SockRun(p c12SockPlan) (*common.Fail, string) {
 				}
 			case <-time.After(3 * time.Second):
 				return common.Failf("event-lost", "group router to group router over multicast loopback: event #%d (command %d, %d payload bytes) never arrived at the other client", i, e.Cmd, len(want.Data)), ""
+			}
+		}
+	case "tunnel-tcp":
+		// a group tunnel in TCP mode against a loopback TCP gateway that relays every telegram back as an indication -
+		// written in two segments with a short pause at a drawn cut (the stream may be cut anywhere), the last few
+		// relays held back and written as one burst
+		ln, err := net.Listen("tcp4", "127.0.0.1:0")
+		if err != nil {
+			return nil, "no loopback"
+		}
+		defer ln.Close()
+		gwErr := make(chan string, 1)
+		go func() {
+			c, err := ln.Accept()
+			if err != nil {
+				return
+			}
+			defer c.Close()
+			c.(*net.TCPConn).SetNoDelay(true)
+			rd := bufio.NewReader(c)
+			var held [][]byte
+			k := 0
+			for {
+				hdr := make([]byte, 6)
+				if _, err := io.ReadFull(rd, hdr); err != nil {
+					return
+				}
+				total := int(hdr[4])<<8 | int(hdr[5])
+				if hdr[0] != 6 || hdr[1] != 0x10 || total < 6 {
+					select {
+					case gwErr <- fmt.Sprintf("the gateway read a broken frame header % x from the client", hdr):
+					default:
+					}
+					return
+				}
+				frame := make([]byte, total)
+				copy(frame, hdr)
+				if _, err := io.ReadFull(rd, frame[6:]); err != nil {
+					return
+				}
+				var sv knxnet.Service
+				if _, err := knxnet.Unpack(frame, &sv); err != nil {
+					continue
+				}
+				switch v := sv.(type) {
+				case *knxnet.ConnReq:
+					c.Write(knxnet.AllocAndPack(&knxnet.ConnRes{Channel: 9, Status: knxnet.NoError, Control: knxnet.HostInfo{Protocol: knxnet.TCP4}}))
+				case *knxnet.ConnStateReq:
+					c.Write(knxnet.AllocAndPack(&knxnet.ConnStateRes{Channel: v.Channel, Status: knxnet.NoError}))
+				case *knxnet.DiscReq:
+					c.Write(knxnet.AllocAndPack(&knxnet.DiscRes{Channel: v.Channel, Status: 0}))
+				case *knxnet.TunnelReq:
+					req, ok := v.Payload.(*cemi.LDataReq)
+					if !ok {
+						continue
+					}
+					out := knxnet.AllocAndPack(&knxnet.TunnelReq{Channel: v.Channel, SeqNumber: uint8(k), Payload: &cemi.LDataInd{LData: req.LData}})
+					k++
+					if p.Hold > 0 && k > len(p.Events)-p.Hold {
+						held = append(held, out)
+						if k == len(p.Events) {
+							var all []byte
+							for _, h := range held {
+								all = append(all, h...)
+							}
+							c.Write(all)
+						}
+						continue
+					}
+					cut := len(out)
+					if len(p.Cuts) > 0 {
+						cut = 1 + p.Cuts[k%len(p.Cuts)]%(len(out)-1)
+					}
+					c.Write(out[:cut])
+					if cut < len(out) {
+						time.Sleep(time.Duration(p.PauseUs) * time.Microsecond)
+						c.Write(out[cut:])
+					}
+				}
+			}
+		}()
+		gt, err := knx.NewGroupTunnel(ln.Addr().String(), knx.TunnelConfig{UseTCP: true, ResendInterval: 300 * time.Millisecond, ResponseTimeout: 3 * time.Second})
+		if err != nil {
+			return nil, "NewGroupTunnel (TCP): " + err.Error()
+		}
+		defer gt.Close()
+		pending := 0
+		recv := func(i int) *common.Fail {
+			want := p.Events[i].event()
+			select {
+			case got, open := <-gt.Inbound():
+				if !open {
+					return common.Failf("inbound-closed", "group tunnel over TCP: Inbound() closed while event #%d (of %d) was under way - the gateway had neither closed the connection nor sent anything malformed", i, len(p.Events))
+				}
+				if !sameEvent(want, got) {
+					return common.Failf("event-differs", "group tunnel over TCP -> gateway -> back: event #%d sent as %+v came back as %+v", i, want, got)
+				}
+			case msg := <-gwErr:
+				return common.Failf("frame-garbled", "group tunnel over TCP: %s", msg)
+			case <-time.After(3 * time.Second):
+				return common.Failf("event-lost", "group tunnel over TCP: event #%d (command %d, %d payload bytes), relayed back by the gateway in segments %v / held back %d, never surfaced", i, p.Events[i].Cmd, len(want.Data), p.Cuts, p.Hold)
+			}
+			return nil
+		}
+		for i, e := range p.Events {
+			if err := gt.Send(e.event()); err != nil {
+				return common.Failf("send-error", "group tunnel over TCP: Send of event #%d failed: %v", i, err), ""
+			}
+			if p.Hold > 0 && i >= len(p.Events)-p.Hold {
+				pending++
+				continue
+			}
+			if f := recv(i); f != nil {
+				return f, ""
+			}
+		}
+		for i := len(p.Events) - pending; i < len(p.Events); i++ {
+			if f := recv(i); f != nil {
+				return f, ""
 			}
 		}
 	case "tunnel-duplex":
@@ -353,9 +479,12 @@ func TestC12Sock(t *testing.T) {
 		rec.Exhaustive("every payload length 1..254 once, router to router over multicast and tunnel to gateway and back over UDP")
 	}
 	common.Drive(t, rec, func(rt *rapid.T) c12SockPlan {
-		p := c12SockPlan{Kind: rapid.SampledFrom([]string{"router", "tunnel", "tunnel-duplex"}).Draw(rt, "kind")}
+		p := c12SockPlan{Kind: rapid.SampledFrom([]string{"router", "tunnel", "tunnel-duplex", "tunnel-tcp", "tunnel-tcp"}).Draw(rt, "kind")}
 		big := false
 		nev := rapid.IntRange(1, 12).Draw(rt, "events")
+		if p.Kind == "tunnel-tcp" {
+			nev = rapid.IntRange(1, 40).Draw(rt, "events-tcp")
+		}
 		if p.Kind == "tunnel-duplex" {
 			nev = rapid.IntRange(20, 80).Draw(rt, "events-duplex")
 		}
@@ -378,6 +507,15 @@ func TestC12Sock(t *testing.T) {
 			}
 			p.Events = append(p.Events, e)
 		}
+		if p.Kind == "tunnel-tcp" {
+			for i := 0; i < rapid.IntRange(0, 4).Draw(rt, "ncuts"); i++ {
+				p.Cuts = append(p.Cuts, rapid.IntRange(0, 300).Draw(rt, "cut"))
+			}
+			p.PauseUs = rapid.SampledFrom([]int{100, 1000, 3000}).Draw(rt, "seg-pause")
+			if len(p.Events) > 3 && rapid.Bool().Draw(rt, "hold") {
+				p.Hold = rapid.IntRange(2, len(p.Events)).Draw(rt, "hold-n")
+			}
+		}
 		rec.Class(fmt.Sprintf("%s top-of-range=%v", p.Kind, big))
 		rec.NonTrivial(common.HashJSON(p))
 		rec.Sample(p.Kind, p)
@@ -387,3 +525,49 @@ func TestC12Sock(t *testing.T) {
 }
 
 var _ = ipv4.NewPacketConn
+
+// TestC04Sock: C04's TCP clause through the real constructor and a kernel TCP socket - every request the gateway
+// writes on the connection's channel is delivered once and in order, however the stream is cut (the tunnel-tcp mode
+// of the C12 socket job: the telegrams the gateway tunnels are its relays of the client's own events).
+func TestC04Sock(t *testing.T) {
+	rec := common.NewRec("C04", "sock")
+	completed := false
+	defer func() { rec.Finish(completed) }()
+	run := func(p c12SockPlan) *common.Fail {
+		rec.InFlight(p)
+		f, inc := c12SockRun(p)
+		rec.Landed()
+		if inc != "" {
+			rec.Inconclusive(inc)
+		}
+		return f
+	}
+	if rec.Env.Replay != "" {
+		common.ReplayOnly(t, rec, run)
+		completed = true
+		return
+	}
+	common.Drive(t, rec, func(rt *rapid.T) c12SockPlan {
+		p := c12SockPlan{Kind: "tunnel-tcp"}
+		for i := 0; i < rapid.IntRange(1, 60).Draw(rt, "telegrams"); i++ {
+			n := rapid.SampledFrom([]int{1, 2, 5, 14, 15, 40, 120, 254}).Draw(rt, "size")
+			b := common.GenBytes(rt, "data", n, n)
+			b[0] &= 0x3f
+			p.Events = append(p.Events, c12Event{Cmd: 2, Hex: fmt.Sprintf("%x", b), Dest: uint16(1 + i)})
+		}
+		for i := 0; i < rapid.IntRange(0, 4).Draw(rt, "ncuts"); i++ {
+			p.Cuts = append(p.Cuts, rapid.IntRange(0, 300).Draw(rt, "cut"))
+		}
+		p.PauseUs = rapid.SampledFrom([]int{100, 1000, 3000}).Draw(rt, "seg-pause")
+		if len(p.Events) > 3 && rapid.Bool().Draw(rt, "hold") {
+			p.Hold = rapid.IntRange(2, len(p.Events)).Draw(rt, "hold-n")
+		}
+		rec.Class(fmt.Sprintf("tcp tunnel: cuts=%d burst=%v", len(p.Cuts), p.Hold > 0))
+		if len(p.Cuts) > 0 || p.Hold > 0 {
+			rec.NonTrivial(common.HashJSON(p))
+		}
+		rec.Sample("tcp", p)
+		return p
+	}, run)
+	completed = true
+}
